@@ -2,7 +2,7 @@ from checks import rapid, plain, fuzz, REPLAY
 
 CHECK = dict(
     pkg="c04", level="fault_enumeration",
-    rule="(session 3: image graphs include layers of a non-distributable media type without urls; registries negotiating on Accept) copy scenario as C03 (graph x pairing x pre-state x options x features x latency plan) + fault plan: a fault-free run counts N requests, then one "
+    rule="(session 3: image graphs include layers of a non-distributable media type without urls; registries negotiating on Accept; layout targets where the top-level manifest cannot be written - a directory at its path - so that the copy fails inside the final manifest put) copy scenario as C03 (graph x pairing x pre-state x options x features x latency plan) + fault plan: a fault-free run counts N requests, then one "
          "faulted run per (position k, kind) with kinds {HTTP 500/502/429/404/401, connection reset before processing, truncated response body, stalled body + "
          "cancel, context cancel on arrival of request k, process death at request k (target frozen and audited as it is)}, optionally a second fault; quick: "
          "3-8 sampled positions x 1-3 kinds per graph, thorough: every position for graphs with N<=150. Oracles: model records at the instant of every manifest "
